@@ -146,6 +146,9 @@ def _fault_step(rng, cfg, hi, sim):
 
 def choose_step(rng, cfg, fb, sim):
     hi = rng.randrange(MAX_HANDLES) % len(sim.world)
+    if fb is not None and fb["op"] in O.MUTATORS and fb["h"] < len(sim.held) and sim.held[fb["h"]]:
+        # answers handed out before the state change are read now
+        return {"h": fb["h"], "op": "inspect"}
     if fb is not None:
         if fb["new_memo"] and cfg["p_mut"] > 0 and rng.random() < 0.5:
             return {"h": fb["h"], "op": rng.choice(["toH", "toR", "toH", "toR", "normH", "flip2", "flip3"])}
@@ -170,14 +173,17 @@ def choose_step(rng, cfg, fb, sim):
     h = sim.world[hi]
     if "cif_data" in h.properties and rng.random() < 0.3:
         pool = EXPORTS
-    return {"h": hi, "op": rng.choice(pool)}
+    st = {"h": hi, "op": rng.choice(pool)}
+    if st["op"] in O.DEFERRABLE and rng.random() < 0.2:
+        st["defer"] = True  # hold the answer, read it at a later `inspect` step
+    return st
 
 
 def audit_for(rng, cfg, sim):
     """End-of-run audit: a seeded sample of query kinds, asked on every handle
     (histories ending in a mutator or a fork are judged too)."""
     qs = rng.sample(FAST_QUERIES, 6 if cfg["large"] else 10)
-    steps = []
+    steps = [{"h": hi, "op": "inspect", "audit": True} for hi in range(len(sim.world)) if sim.held[hi]]
     for hi in range(len(sim.world)):
         if sim.kw[hi]:
             names = sorted(O.KW_QUERIES) + rng.sample(O.KW_SAFE, 3)
@@ -299,8 +305,9 @@ def template_run(verif_seed, index, stratum="template"):
     ref_mode = ref_mode_for(rng)
     plan = []
     target = 0
+    defer = bool(q1 in O.DEFERRABLE and index % 3 == 0)
     if q1:
-        plan.append({"h": target, "op": q1})
+        plan.append({"h": target, "op": q1, "defer": True} if defer else {"h": target, "op": q1})
     state = {"i": 0, "plan": plan, "expanded": False}
 
     def producer(sim, fb):
@@ -313,7 +320,10 @@ def template_run(verif_seed, index, stratum="template"):
             other = "toR" if choice == "H" else "toH"
             back = "toH" if choice == "H" else "toR"
             tail = {"switch": [other], "switch2": [other, back], "flip3": ["flip3"], "normH": ["normH"]}[mut]
-            rest = [{"h": target, "op": m} for m in tail] + [{"h": target, "op": q2}]
+            rest = [{"h": target, "op": m} for m in tail]
+            if defer:
+                rest.append({"h": target, "op": "inspect"})
+            rest.append({"h": target, "op": q2})
             rest += audit_steps(1, rng.sample(FAST_QUERIES, 4 if is_large(spec) else 6))
             state["rest"] = iter(rest)
         return next(state["rest"], None)
